@@ -101,6 +101,8 @@ def run(ck):
     for tree, p in [([], "."), (["d:a"], "a/../a"), (["d:a", "l:k>a"], "k"), (["d:a", "l:k>a"], "k/.."), ([], "nope"), (["f:f"], "f"), (["d:a"], "@/a/./"), (["l:d>nowhere"], "d")]:
         lines.append("canon %s | %s" % (" ".join(tree), hx(p)))
     lines.append("foreach"); lines.append("foreach f:x"); lines.append("foreach f:x d:y f:z.txt f:.hidden d:..a")
+    # descriptor 0 free: the first file a function opens gets number 0 (file_equals, dir_for_each, canonical_path, file_size …)
+    lines += ["fd0 " + l for i, l in enumerate(lines) if (l.split()[0] in ("feq", "feqz", "feqino") and i % 5 == 0) or l.split()[0] in ("feqmissing", "feqproc", "foreach", "fsize", "ftype", "canon")]
     hist = [lines[i:i + 300] for i in range(0, len(lines), 300)]
     ck.sample(lines[40:43]); ck.sample(lines[-20:-17])
     for l in lines: ck.hist(l.split()[0])
